@@ -154,3 +154,81 @@ pub fn random_op(rng: &mut Rng, doc: &mut Vec<u8>, tokens: &[(usize, usize)], do
         }
     }
 }
+
+// ---------------------------------------------------------------------------------------------
+// structural faults on JSON documents: a member of the wrong JSON type, a missing member
+
+#[derive(Clone, Debug)]
+enum Seg {
+    Key(String),
+    Idx(usize),
+}
+
+fn json_paths(v: &serde_json::Value, cur: &mut Vec<Seg>, out: &mut Vec<Vec<Seg>>) {
+    out.push(cur.clone());
+    match v {
+        serde_json::Value::Object(m) => {
+            for (k, c) in m {
+                cur.push(Seg::Key(k.clone()));
+                json_paths(c, cur, out);
+                cur.pop();
+            }
+        }
+        serde_json::Value::Array(a) => {
+            for (i, c) in a.iter().enumerate() {
+                cur.push(Seg::Idx(i));
+                json_paths(c, cur, out);
+                cur.pop();
+            }
+        }
+        _ => {}
+    }
+}
+
+fn json_at<'a>(root: &'a mut serde_json::Value, path: &[Seg]) -> Option<&'a mut serde_json::Value> {
+    let mut v = root;
+    for s in path {
+        v = match s {
+            Seg::Key(k) => v.get_mut(k.as_str())?,
+            Seg::Idx(i) => v.get_mut(*i)?,
+        };
+    }
+    Some(v)
+}
+
+/// Every single structural fault of a JSON document: each node replaced by a value of each other
+/// JSON type, each object member removed. Returns (description, document) pairs; empty when the
+/// base is not JSON.
+pub fn json_struct_variants(doc: &[u8]) -> Vec<(String, Vec<u8>)> {
+    let Ok(root) = serde_json::from_slice::<serde_json::Value>(doc) else { return Vec::new() };
+    let replacements: Vec<serde_json::Value> = ["null", "true", "0", "-1.5", "1e400", "\"\"", "\"x\"", "[]", "{}", "[null]", "{\"_kind\":\"marker\"}", "{\"_kind\":\"x\"}", "{\"_kind\":\"number\",\"val\":\"1\"}"]
+        .iter()
+        .filter_map(|t| serde_json::from_str(t).ok())
+        .collect();
+    let mut paths = Vec::new();
+    json_paths(&root, &mut Vec::new(), &mut paths);
+    let mut out = Vec::new();
+    let show = |p: &[Seg]| -> String {
+        p.iter().map(|s| match s { Seg::Key(k) => format!(".{k}"), Seg::Idx(i) => format!("[{i}]") }).collect::<String>()
+    };
+    for p in &paths {
+        for r in &replacements {
+            let mut c = root.clone();
+            if let Some(slot) = json_at(&mut c, p) {
+                if std::mem::discriminant(slot) == std::mem::discriminant(r) && !matches!(r, serde_json::Value::Object(_) | serde_json::Value::String(_) | serde_json::Value::Number(_)) {
+                    continue;
+                }
+                *slot = r.clone();
+                out.push((format!("type-swap{}={}", show(p), r), serde_json::to_vec(&c).unwrap_or_default()));
+            }
+        }
+        if let Some(Seg::Key(k)) = p.last() {
+            let mut c = root.clone();
+            if let Some(serde_json::Value::Object(m)) = json_at(&mut c, &p[..p.len() - 1]) {
+                m.remove(k.as_str());
+                out.push((format!("member-drop{}", show(p)), serde_json::to_vec(&c).unwrap_or_default()));
+            }
+        }
+    }
+    out
+}
